@@ -576,7 +576,7 @@ class Program:
             path = os.path.join(factdir, fname)
             with open(path) as fh:
                 raws[key] = json.load(fh)
-        self.canon_report = {"renamed": [], "inlined": [], "new_functions_kept": []}
+        self.canon_report = {"renamed": [], "inlined": [], "new_functions_kept": [], "gone": {}}
         if not os.environ.get("SFSVERIF_NO_CANON"):
             import canon
             raws, self.canon_report = canon.canonicalise(raws)
@@ -603,7 +603,13 @@ class Program:
         self._cg = None
 
     def fn(self, path):
-        return self.fns.get(path)
+        f = self.fns.get(path)
+        if f is None:
+            # an inventoried helper that was merged into its only caller: the caller's body is where its code now lives
+            callers = (self.canon_report.get("gone") or {}).get(path)
+            if callers and len(callers) == 1:
+                return self.fns.get(callers[0])
+        return f
 
     def find(self, suffix):
         """functions whose path ends with suffix (on a :: boundary)"""
